@@ -251,6 +251,12 @@ pipe_stats_init(nni_pipe *p)
 #endif // NNG_ENABLE_STATS
 }
 
+static void
+pipe_nop(void *arg)
+{
+	NNI_ARG_UNUSED(arg);
+}
+
 static int
 pipe_create(nni_pipe **pp, nni_sock *sock, nni_sp_tran *tran, nni_dialer *d,
     nni_listener *l)
@@ -303,6 +309,13 @@ pipe_create(nni_pipe **pp, nni_sock *sock, nni_sp_tran *tran, nni_dialer *d,
 
 	rv2 = tops->p_init(tran_data, p);
 	rv3 = pops->pipe_init(proto_data, p, sock_data);
+	if (rv3 != 0) {
+		// A protocol whose pipe_init fails has already released
+		// whatever it had set up: do not tear it down again.
+		p->p_proto_ops.pipe_close = pipe_nop;
+		p->p_proto_ops.pipe_stop  = pipe_nop;
+		p->p_proto_ops.pipe_fini  = pipe_nop;
+	}
 	if (rv1 != 0 || rv2 != 0 || rv3 != 0) {
 		nni_pipe_close(p);
 		nni_pipe_rele(p);
